@@ -20,10 +20,11 @@ Record cfg := Cfg {
   c_opt_space : bool;        (* parser accepts "data:"/"event:" without the optional space   (C12-sse-field-optional-space) *)
   c_keep_id : bool;          (* synthesised errors carry the request's id, not str(id)       (C12-synth-error-keeps-request-id) *)
   c_other_terminal : bool;   (* unexpected status: answer for this id or a synthesised error (C12-other-status-always-terminal) *)
-  c_enter_cancel : bool      (* cancellation while entering runs _cleanup                    (C12-cancel-during-enter-cleans-up) *)
+  c_enter_cancel : bool;     (* cancellation while entering runs _cleanup                    (C12-cancel-during-enter-cleans-up) *)
+  c_reraise_cancel : bool    (* the sender does not swallow the CancelledError of its future (C12-exit-deadlock-swallowed-cancel) *)
 }.
-Definition cfg_head := Cfg false false false false.
-Definition cfg_patched := Cfg true true true true.
+Definition cfg_head := Cfg false false false false false.
+Definition cfg_patched := Cfg true true true true true.
 
 (* ------------------------------------------------------------------ *)
 (** * (b) the event-stream parser                                      *)
@@ -308,30 +309,39 @@ Definition sse_outs (l : list out) : list msg :=
 (* ------------------------------------------------------------------ *)
 (** What the transport holds: the two tasks (running), the stream context
     (entered), the two HTTP clients (open), the send ends of the two memory
-    streams (open), unresolved futures in the pending table. *)
+    streams (open), unresolved futures in the pending table; [r_waiting]: the
+    sender task is inside [wait_for(future)] (after a 202). *)
 Record res := Res {
   r_sse_task : bool; r_out_task : bool; r_stream_ctx : bool;
   r_stream_client : bool; r_send_client : bool;
-  r_in_send : bool; r_out_send : bool; r_pending : nat }.
+  r_in_send : bool; r_out_send : bool; r_pending : nat; r_waiting : bool }.
 
-Definition res_none := Res false false false false false false false 0.
-Definition res_alloc := Res true true false true true true true 0.
+Definition res_none := Res false false false false false false false 0 false.
+Definition res_alloc := Res true true false true true true true 0 false.
 
 Definition released (r : res) : bool :=
   negb (r_sse_task r) && negb (r_out_task r) && negb (r_stream_ctx r) && negb (r_stream_client r)
   && negb (r_send_client r) && negb (r_in_send r) && negb (r_out_send r) && (Nat.eqb (r_pending r) 0).
 
+Definition set_sse (b : bool) (r : res) := Res b (r_out_task r) (r_stream_ctx r) (r_stream_client r) (r_send_client r) (r_in_send r) (r_out_send r) (r_pending r) (r_waiting r).
+Definition set_out (b : bool) (r : res) := Res (r_sse_task r) b (r_stream_ctx r) (r_stream_client r) (r_send_client r) (r_in_send r) (r_out_send r) (r_pending r) (r_waiting r && b).
+Definition set_ctx (b : bool) (r : res) := Res (r_sse_task r) (r_out_task r) b (r_stream_client r) (r_send_client r) (r_in_send r) (r_out_send r) (r_pending r) (r_waiting r).
+Definition set_pending (n : nat) (w : bool) (r : res) := Res (r_sse_task r) (r_out_task r) (r_stream_ctx r) (r_stream_client r) (r_send_client r) (r_in_send r) (r_out_send r) n w.
+
 (** _cleanup, statement by statement. *)
-Definition cl_pending (r : res) := Res (r_sse_task r) (r_out_task r) (r_stream_ctx r) (r_stream_client r) (r_send_client r) (r_in_send r) (r_out_send r) 0.
-Definition cl_sse (r : res) := Res false (r_out_task r) (r_stream_ctx r) (r_stream_client r) (r_send_client r) (r_in_send r) (r_out_send r) (r_pending r).
-Definition cl_out (r : res) := Res (r_sse_task r) false (r_stream_ctx r) (r_stream_client r) (r_send_client r) (r_in_send r) (r_out_send r) (r_pending r).
-Definition cl_ctx (r : res) := Res (r_sse_task r) (r_out_task r) false (r_stream_client r) (r_send_client r) (r_in_send r) (r_out_send r) (r_pending r).
-Definition cl_streams (r : res) := Res (r_sse_task r) (r_out_task r) (r_stream_ctx r) (r_stream_client r) (r_send_client r) false false (r_pending r).
-Definition cl_clients (r : res) := Res (r_sse_task r) (r_out_task r) (r_stream_ctx r) false false (r_in_send r) (r_out_send r) (r_pending r).
+Definition cl_pending (r : res) := set_pending 0 (r_waiting r) r.      (* futures cancelled, table cleared *)
+Definition cl_sse (r : res) := set_sse false r.
+Definition cl_out (r : res) := set_out false r.
+Definition cl_ctx (r : res) := set_ctx false r.
+Definition cl_streams (r : res) := Res (r_sse_task r) (r_out_task r) (r_stream_ctx r) (r_stream_client r) (r_send_client r) false false (r_pending r) (r_waiting r).
+Definition cl_clients (r : res) := Res (r_sse_task r) (r_out_task r) (r_stream_ctx r) false false (r_in_send r) (r_out_send r) (r_pending r) (r_waiting r).
 Definition cleanup (r : res) : res := cl_clients (cl_streams (cl_ctx (cl_out (cl_sse (cl_pending r))))).
 
-Inductive lphase := LFresh | LEntering | LInside | LClosed.
-Inductive exit_kind := XNormal | XException | XCancel.
+(** [LStuck]: __aexit__ was called and never returns. *)
+Inductive lphase := LFresh | LEntering | LInside | LClosed | LStuck.
+(** [XCancelTask]: one [task.cancel()]; [XCancelScope]: an anyio cancel scope,
+    which keeps re-cancelling whatever the exiting task awaits. *)
+Inductive exit_kind := XNormal | XException | XCancelTask | XCancelScope.
 
 (** Life-cycle events of one transport object. *)
 Inductive lev :=
@@ -339,7 +349,9 @@ Inductive lev :=
 | LStreamOpen            (* the sse task entered client.stream() *)
 | LSseEnds               (* the sse task ends by itself (status, error, stream closed) *)
 | LOutEnds               (* the outgoing task ends by itself *)
-| LPendAdd | LPendDone   (* a future is registered / resolved or popped *)
+| LPendAdd               (* the sender registers a future and starts the POST *)
+| LWait                  (* 202: the sender awaits the future *)
+| LPendDone              (* the future is resolved or popped; the sender moves on *)
 | LEnterOk               (* readiness reached, message URL present *)
 | LEnterRaise            (* no endpoint / timeout: the except branches run _cleanup *)
 | LEnterCancel           (* the entering task is cancelled while waiting for readiness *)
@@ -347,21 +359,33 @@ Inductive lev :=
 
 Record lstate2 := L2 { lp : lphase; lr : res }.
 
+(** _cleanup cancels the pending futures, then (only if the sse task is still
+    running) awaits it, then cancels and awaits the outgoing task.  When the
+    sse task has already ended there is no await between the two
+    cancellations: the sender, waiting on its future, receives ONE
+    CancelledError for both, HEAD's [except asyncio.CancelledError] after the
+    202 swallows it, the sender goes back to reading the write stream and
+    [await self._outgoing_task] never returns — unless the exit itself runs
+    under a cancel scope that cancels that await again (which reaches the
+    sender a second time). *)
+Definition exit_stuck (c : cfg) (k : exit_kind) (r : res) : bool :=
+  negb (c_reraise_cancel c) && negb (r_sse_task r) && r_out_task r && r_waiting r
+  && match k with XCancelScope => false | _ => true end.
+
 Definition lstep (c : cfg) (s : lstate2) (e : lev) : lstate2 :=
   let r := lr s in
   match e, lp s with
   | LAlloc, LFresh => L2 LEntering res_alloc
-  | LStreamOpen, (LEntering | LInside) =>
-      if r_sse_task r then L2 (lp s) (Res true (r_out_task r) true (r_stream_client r) (r_send_client r) (r_in_send r) (r_out_send r) (r_pending r)) else s
+  | LStreamOpen, (LEntering | LInside) => if r_sse_task r then L2 (lp s) (set_ctx true r) else s
   | LSseEnds, (LEntering | LInside) => L2 (lp s) (cl_sse r)
   | LOutEnds, (LEntering | LInside) => L2 (lp s) (cl_out r)
-  | LPendAdd, LInside =>
-      if r_out_task r then L2 (lp s) (Res (r_sse_task r) true (r_stream_ctx r) (r_stream_client r) (r_send_client r) (r_in_send r) (r_out_send r) (S (r_pending r))) else s
-  | LPendDone, LInside => L2 (lp s) (Res (r_sse_task r) (r_out_task r) (r_stream_ctx r) (r_stream_client r) (r_send_client r) (r_in_send r) (r_out_send r) (Nat.pred (r_pending r)))
+  | LPendAdd, LInside => if r_out_task r then L2 (lp s) (set_pending (S (r_pending r)) false r) else s
+  | LWait, LInside => if r_out_task r && negb (Nat.eqb (r_pending r) 0) then L2 (lp s) (set_pending (r_pending r) true r) else s
+  | LPendDone, LInside => L2 (lp s) (set_pending (Nat.pred (r_pending r)) false r)
   | LEnterOk, LEntering => L2 LInside r
   | LEnterRaise, LEntering => L2 LClosed (cleanup r)
   | LEnterCancel, LEntering => L2 LClosed (if c_enter_cancel c then cleanup r else r)
-  | LExit _, LInside => L2 LClosed (cleanup r)
+  | LExit k, LInside => if exit_stuck c k r then L2 LStuck (cl_pending r) else L2 LClosed (cleanup r)
   | _, _ => s
   end.
 
